@@ -252,12 +252,12 @@ CHECK = {
                 "scale 1 on both standard parallels / k0 on the tangent parallel, origin -> false origin, central meridian -> x = x0, "
                 "toWGS84 recovers isometric latitude and longitude exactly on cones of either hemisphere, the true latitude is a "
                 "fixed point of the latitude iteration, which is a global contraction (|g'| <= e^2/(1-e^2), mean value theorem), so for "
-                "e <= 0.1 any returned latitude is within EPSILON/98 of the true one; the pre-repair inverse is undefined on every "
+                "e <= 0.1 the loop exits within 8 passes and the returned latitude is within EPSILON/98 of the true one; the pre-repair inverse is undefined on every "
                 "point of a southern cone. Tied by running the extracted model against the compiled class; mpmath oracle differentiates the "
                 "implementation's forward map numerically.",
         "note": "Trusted: Coq kernel, real-number axioms, hand-written model, extraction, float dictionary, harness, oracle. "
-                "Float rounding/libm observed, not proved; numerical differentiation tolerance 2e-8. Termination of the "
-                "latitude loop within the fuel is observed (HANG outcome), not proved.",
+                "Float rounding/libm observed, not proved; numerical differentiation tolerance 2e-8. Termination of the latitude loop is proved over "
+                "the reals (8 passes for e <= 0.1); in binary64 it is observed (HANG outcome).",
         "technique": "Coq proof (Coquelicot derivatives, field/nra) + correspondence run + mpmath oracle",
     },
 }
